@@ -134,8 +134,12 @@ def c11c(tree, ob):
     kinds = {}
     for lp in loops:
         it = lp.iter
-        if isinstance(it, ast.Call) and isinstance(it.func, ast.Attribute) and it.func.attr == 'block_type' or (isinstance(it, ast.Call) and it.args and isinstance(it.args[0], ast.Call) and isinstance(it.args[0].func, ast.Attribute) and it.args[0].func.attr == 'block_type'):
-            inner = it if it.func.attr == 'block_type' else it.args[0]
+        inner = None
+        if isinstance(it, ast.Call) and isinstance(it.func, ast.Attribute) and it.func.attr == 'block_type':
+            inner = it
+        elif isinstance(it, ast.Call) and it.args and isinstance(it.args[0], ast.Call) and isinstance(it.args[0].func, ast.Attribute) and it.args[0].func.attr == 'block_type':
+            inner = it.args[0]
+        if inner is not None and inner.args:
             kinds.setdefault(src(inner.args[0]), []).append(lp)
     for btype in ('PreviousNodeBlock', 'BundleAgeBlock'):
         lps = kinds.get(btype, [])
